@@ -142,6 +142,9 @@ pub fn run(em: &mut Emit, thorough: bool, seed: u64) {
         SData::Map(vec![], true, true),
         SData::Map(vec![(SData::Str("k".into()), SData::I64(1)), (SData::Str("k".into()), SData::I64(2))], true, true),
         SData::Map(vec![(SData::I64(1), SData::I64(1)), (SData::U64(1), SData::I64(2)), (SData::Str("1".into()), SData::I64(3))], false, false),
+        SData::Map(vec![(SData::U8(1), SData::I64(1)), (SData::U16(2), SData::I64(2)), (SData::U32(3), SData::I64(3)), (SData::U64(4), SData::I64(4))], true, true),
+        SData::Map(vec![(SData::I8(-1), SData::I64(1)), (SData::I16(-2), SData::I64(2)), (SData::I32(-3), SData::I64(3)), (SData::I64(-4), SData::I64(4))], true, false),
+        SData::Map(vec![(SData::Char('k'), SData::U8(1)), (SData::UnitVariant("E", 0, "v"), SData::U8(2)), (SData::Bool(false), SData::U8(3))], true, false),
         SData::Map(vec![(SData::F64(1.0), SData::I64(1))], true, true),
         SData::Map(vec![(SData::Bytes(vec![1]), SData::I64(1))], true, true),
         SData::Map(vec![(SData::None, SData::I64(1))], true, true),
